@@ -133,6 +133,42 @@ Theorem C06_copy_variants : forall (T : trajQ), wf T -> no_empty_timestamp T -> 
 Proof. exact (@deepcopy_traj_id pose). Qed.
 Print Assumptions C06_copy_variants.
 
+(* --- 4c. the property is about the rigs AS THEY ARE AT THE CALL.  A history = calls of the four functions on one
+         Rigs and one Trajectories object interleaved with edits of the rigs through any dict path (MRigs.edit:
+         rigs[r, d] = p, rigs[r][d] = p, del rigs[r][d], update, clear, pop, setdefault, ...) and refills of the
+         trajectories.  Whatever came before, a call returns what the function returns on the current (rigs,
+         trajectories): in the model this is by construction (no hidden state); the correspondence check runs such
+         histories on the real objects and compares every call with [call] on the current arguments. *)
+Theorem C06_history_call_depends_on_current_arguments : forall (h : list (step pose)) st k masters,
+  hrun_spec (h ++ [SCall k masters]) st =
+  hrun_spec h st ++ [call_spec k masters (fst (hstate_spec h st)) (snd (hstate_spec h st))].
+Proof. exact (hrun_snoc_call pose compose2 inverse max_depth). Qed.
+Print Assumptions C06_history_call_depends_on_current_arguments.
+
+Theorem C06_history_same_state_same_outcome : forall (h1 h2 : list (step pose)) st1 st2 k masters,
+  hstate_spec h1 st1 = hstate_spec h2 st2 ->
+  last (hrun_spec (h1 ++ [SCall k masters]) st1) KeyErr = last (hrun_spec (h2 ++ [SCall k masters]) st2) KeyErr.
+Proof. exact (hrun_same_state pose compose2 inverse max_depth). Qed.
+Print Assumptions C06_history_same_state_same_outcome.
+
+(* theorem 2 at the end of any history: if the objects now hold (R, T) satisfying its hypotheses, rigs_remove_inplace
+   then the copying rigs_recover give back every top-level rig pose and move no sensor -- for the geometry R of now *)
+Theorem C06_history_recover_remove : forall (h : list (step pose)) st (R : rigsQ) (T : trajQ) n world,
+  hstate_spec h st = (R, T) ->
+  wf2 R -> wf2 T -> one_parent R -> depth_le R n -> (n <= max_depth)%nat -> rigs_nonempty R -> rigs_validQ R ->
+  no_empty_timestamp T -> consistent R world T ->
+  exists T1 T2,
+    hrun_spec (h ++ [SCall KRemoveIp None; SCall KRecover None]) st = hrun_spec h st ++ [Done T1; Done T2] /\
+    hstate_spec (h ++ [SCall KRemoveIp None; SCall KRecover None]) st = (R, T1) /\
+    remove_spec_inplace max_depth R T = Done T1 /\ recover_spec_inplace max_depth R None T1 = Done T2 /\
+    (forall t r p, is_rig R r = true -> mounted R r = false -> lookup2 t r T = Some p ->
+                   exists p2, lookup2 t r T2 = Some p2 /\ p2 =p= p) /\
+    (forall t s p1, lookup2 t s T1 = Some p1 ->
+                    exists y l p2 c, path_up R s l y /\ mounted R y = false /\ lookup2 t y T2 = Some p2 /\
+                                     compose_list (map snd l ++ [p2]) = Some c /\ p1 =p= c).
+Proof. exact history_recover_remove. Qed.
+Print Assumptions C06_history_recover_remove.
+
 (* --- 5. the modelled KeyError outcomes (a job whose entry has vanished) never happen on real dicts *)
 Theorem C06_no_keyerror : forall (R : rigsQ) (T : trajQ) masters fuel,
   wf2 R -> wf2 T -> remove_spec_inplace fuel R T <> KeyErr /\ recover_spec_inplace fuel R masters T <> KeyErr.
@@ -241,3 +277,22 @@ Qed.
 Example C06_empty_rig_raises :
   remove_spec_inplace max_depth [("R", [])] [(1%Z, [("R", W0)]); (2%Z, [("x", F0)])] = RuntimeErr [(2%Z, [("x", F0)])].
 Proof. vm_compute. reflexivity. Qed.
+
+(* --- a history satisfying the hypotheses of C06_history_recover_remove: a first recover (nothing to do), the geometry
+       re-calibrated through the inner dict and a member unmounted, then remove + recover: the calls see the edited rigs
+       (s2 is no longer replaced, s1 gets the new mounting pose) and the rig pose comes back. *)
+Definition g1' := P7 1 0 (-1) 2  0 3 0.
+Definition Hex : list (step pose) :=
+  [SCall KRecover None; SEdit (ESetInner "A" "s1" g1'); SEdit (EDelInner "A" "s2")].
+Example C06_history_example :
+  hstate_spec Hex (Rex, Tex) = ([("R", [("A", gA); ("s3", g3)]); ("A", [("s1", g1')])], Tex) /\
+  exists T1 T2,
+    hrun_spec (Hex ++ [SCall KRemoveIp None; SCall KRecover None]) (Rex, Tex) = [Done Tex; Done T1; Done T2] /\
+    map (fun tm => (fst tm, keys (snd tm))) T1 = [(1%Z, ["free"; "s3"; "s1"]); (2%Z, ["free"])] /\
+    (exists p, lookup2 1%Z "s1" T1 = Some p /\ p =p= compose2 g1' (compose2 gA W0)) /\
+    (exists p, lookup2 1%Z "R" T2 = Some p /\ p =p= W0).
+Proof.
+  split; [vm_compute; reflexivity|].
+  eexists. eexists. split; [vm_compute; reflexivity|]. split; [vm_compute; reflexivity|].
+  split; eexists; (split; [vm_compute; reflexivity | qeq_compute]).
+Qed.
